@@ -52,6 +52,12 @@ func c8Case(t *testing.T, ops []string, o *vu.Out, exec func(*testing.T, []strin
 		os.Exit(3)
 	})
 	defer wd.Stop()
+	// A panic in a goroutine of the code under test (e.g. outflow.take "took too much" in the Transport)
+	// kills the process before anything is recorded: keep the case being run in a scratch file so that it
+	// can be replayed by hand (removed again when the case ends normally).
+	inflight := fmt.Sprintf("/tmp/verif-c08c09-inflight-%d.ops", os.Getpid())
+	os.WriteFile(inflight, []byte("# case 0\n"+strings.Join(ops, "\n")+"\n"), 0o644)
+	defer os.Remove(inflight)
 	defer func() {
 		if e := recover(); e != nil {
 			o.Fail("", fmt.Sprintf("panic while running the case (deadlocked bubble or harness error): %v", e))
